@@ -293,6 +293,21 @@ def _dyn(self, event, *a, **k):
     _log(self, event, 'dyn')
 
 
+def _dyn1(self, event, *a, **k):
+    _log(self, event, 'dyn')
+
+
+def _dyn2(self, event, *a, **k):
+    _log(self, event, 'dyn')
+
+
+# the handler added / removed at run time, by component index modulo 3:
+#   0: declared for three names, the only handler of its component for the first two (removing it whole has to work through
+#      every name);   1, 2: every name is shared with the component's fixed handler, so that no name bucket empties when it is
+#      removed (and the same function can be added again later)
+DYN = ((_dyn, ('h', 'i', 'e')), (_dyn1, ('e',)), (_dyn2, ('e', 'g')))
+
+
 class Ghost:
     def __init__(self, n):
         self.parent = [None] * n
@@ -443,9 +458,8 @@ class HistModel(e1_history.Model):
             drain(r)
             drain(x)
         elif k == 'add':
-            # declared for three names, the only handler of its component for the first two (removing it whole has to
-            # work through every name)
-            w.dynh[op[1]] = comps[op[1]].addHandler(handler('h', 'i', 'e')(_dyn))
+            fn, names = DYN[op[1] % 3]
+            w.dynh[op[1]] = comps[op[1]].addHandler(handler(*names)(fn))
         elif k == 'rem':
             comps[op[1]].removeHandler(w.dynh[op[1]])
             w.dynh[op[1]] = None
@@ -480,7 +494,7 @@ class HistModel(e1_history.Model):
                     done.add(i)
         for i in range(self.n):
             if ghost.dyn[i]:
-                comps[i].addHandler(handler('e')(_dyn))
+                comps[i].addHandler(handler(*DYN[i % 3][1])(DYN[i % 3][0]))
         for r in {c.root for c in comps}:
             drain(r)
         return comps
@@ -509,10 +523,10 @@ class HistModel(e1_history.Model):
                 st.fail(kind, 'after %r a fire on root c%d delivered %r, expected %r (forest %r, dynamic %r)'
                         % (list(hist), r, got, exp, g.parent, g.dyn),
                         {'part': 'history', 'n': self.n, 'hist': [list(o) for o in hist], 'probe': r})
-            # the dynamic handler is declared for 'e' only: an event named 'g' reaches the fixed handlers and nothing else
+            # an event named 'g' reaches the fixed handlers and those run-time handlers that are declared for it
             clone = self.build(hist)
             got_g, _ = fire_probe(clone.comps, r, 'g', None, 2)
-            exp_g = [x for x in exp if x[1] == 'fixed']
+            exp_g = [x for x in exp if x[1] == 'fixed' or 'g' in DYN[x[0] % 3][1]]
             st.executions += 1
             if got_g != exp_g:
                 st.fail('history:other-name:' + ('missing' if [x for x in exp_g if x not in got_g] else 'extra-or-duplicate'),
